@@ -8,10 +8,15 @@ CONFIG = dict(
                "BGP frames that the repository's decoder reads back as the monitored content (single-frame case; the "
                "multi-frame statement is kept as a Prop and refuted by a witness = finding S29), PEER_INDEX_TABLE count = "
                "entries, RIB entry count / attribute-length fields exactly cover well-formed TLVs, peer indexes in range. "
-               "The model is tied to packet/src/bmp.rs and packet/src/mrt.rs by running the real codecs and the model on "
-               "the same generated records (all kinds, several records through one codec into one buffer) and diffing the "
-               "bytes; the reference checker is the oracle on the REAL bytes, with the REAL decoder's reading of every "
-               "embedded frame supplied per case.",
+               "Daemon level: the converters of daemon/src/bmp.rs / mrt.rs (adj_rib_in/out_to_bmp_update, loc_rib_to_bmp, "
+               "adj_rib_in_to_mrt, session_down_to_bmp, apply_snapshot+flush_peer_snapshot, dump_table) are modelled as event -> "
+               "records maps; theorems: they emit exactly the wanted records, stay in the packet-level domain, and every peer "
+               "index written by dump_table is in range and points at the path's own peer, no path is dropped (daemon-level "
+               "master theorem). The model is tied to the code by running the REAL converters and codecs (rustybgpd test "
+               "binary, hooks in main.rs/bmp.rs/mrt.rs) and the model on the same generated events and records (all kinds, "
+               "several through one codec into one buffer; dump_table on a real TableManager) and diffing the bytes; the "
+               "reference checker is the oracle on the REAL bytes, with the REAL decoder's reading of every embedded frame "
+               "supplied per case.",
     level_note="Trusted: Lean kernel; axioms propext/Quot.sound; the hand-written model (checked only by the correspondence "
                "stream); harness glue (case decoding, stand-alone PeerCodec that produces the embedded bytes, parse_message + "
                "validate_message as the decoder table). The embedded BGP bytes are an opaque input of the model: that "
@@ -38,13 +43,21 @@ CONFIG = dict(
         "Rbgp.Mon2.Props.tabledump_counts_consistent",
         "Rbgp.Mon2.Props.peer_index_count",
         "Rbgp.Mon2.Props.rib_entry_attr_length",
+        "Rbgp.Mon2.Props.converters_emit_wanted",
+        "Rbgp.Mon2.Props.daemon_check_run_ok",
+        "Rbgp.Mon2.Props.dump_peer_index_consistent",
+        "Rbgp.Mon2.Props.dump_entry_count_consistent",
     ],
-    harness=dict(kind="pt", bin="c19"),
+    harness=dict(kind="daemon", test="verif_main_hook::c19::verif_main"),
     profiles=["debug"],
     n_quick=3000, n_thorough=30000, shards=12,
-    nontrivial_re=r"bmp-rm|bmp-up|bmp-down|bmp-init|mrt-mp|td-rib|td-peers",
-    rule="harness-side generator (needs the real BGP encoder/decoder): cases of 1-4 records pushed through ONE BmpCodec / "
-         "MrtCodec / encode_table_dump into ONE buffer; all BMP kinds (route monitoring reach/unreach/EoR, peer up with "
+    nontrivial_re=r"bmp-rm|bmp-up|bmp-down|bmp-init|mrt-mp|td-rib|td-peers|ev-",
+    rule="harness-side generator (needs the real BGP encoder/decoder and a real TableManager): cases of 1-4 items pushed through ONE "
+         "BmpCodec / MrtCodec / encode_table_dump into ONE buffer; ~half of the items are daemon events converted by the REAL "
+         "daemon code (live Adj-RIB-In pre/post and Adj-RIB-Out pre/post route monitoring, Loc-RIB, MRT update, peer down "
+         "for all 7 SessionDownReason shapes, snapshot flush of 0..6 announce/withdraw changes of colliding prefixes from the "
+         "flushed and from foreign peers, dump_table of 0..4 peers x 0..3 IPv4 + 0..3 IPv6 prefixes x 1..3 paths), the rest "
+         "packet-level records: all BMP kinds (route monitoring reach/unreach/EoR, peer up with "
          "arbitrary capability sets incl. >255 bytes, peer down with all 5 reasons, initiation TLVs, stats/termination/"
          "mirroring), BGP4MP with and without add-path, TABLE_DUMP_V2 dumps (0..300 peers, 0..15 entries, attribute blocks "
          "0..65536 bytes); IPv4 and IPv6 peers, local addresses and next hops incl. mixed and link-local pairs; Loc-RIB and "
@@ -58,12 +71,23 @@ CONFIG = dict(
                    "ap-on", "ap-off", "reach", "unreach", "eor", "multi-frame", "local-v4", "local-v6",
                    "reason-1", "reason-2", "reason-3", "reason-4", "reason-5", "tlvs-0", "tlvs-3", "afi-v4", "afi-v6",
                    "mixed-local", "asn2", "peers-0", "peers-few", "peers-many", "ents-0", "ents-few", "ents-many",
-                   "rib4", "rib6", "attrlen-0", "attrlen-some", "attrlen-max", "attrlen-over", "(panic)"],
+                   "rib4", "rib6", "attrlen-0", "attrlen-some", "attrlen-max", "attrlen-over", "(panic)",
+                   "ev-rm", "ev-out", "ev-loc", "ev-mrt", "ev-down", "ev-flush", "ev-dump", "pre", "post",
+                   "sess-none", "sess-hold", "sess-fsm", "sess-admin", "sess-io", "sess-remote", "sess-local",
+                   "fmsgs-0", "fmsgs-1", "fmsgs-4", "dpeers-0", "dpeers-1", "dpeers-2", "dpeers-4", "dchg4-0", "dchg4-3",
+                   "dchg6-0", "dchg6-3"],
     trusted_base=["model Rbgp/Mon2/Model.lean of packet/src/bmp.rs (BmpCodec::encode, PerPeerHeader::encode, "
                   "PeerDownReason::encode), packet/src/mrt.rs (MrtCodec::encode, MpHeader::encode, encode_table_dump, "
                   "write_mrt_record, write_rib_entries, encode_nexthop_attr, encode_mrt_mp_reach_ipv6) and packet/src/bgp.rs "
                   "(Attribute::encode, Ipv4Net/Ipv6Net::encode)",
-                  "harness/pt/src/bin/c19.rs: the embedded BGP bytes of a case are produced by a stand-alone PeerCodec::new() "
+                  "model Rbgp/Mon2/DModel.lean of the converters in daemon/src/bmp.rs (adj_rib_in_to_bmp_update, "
+                  "adj_rib_out_to_bmp_update, loc_rib_to_bmp, session_down_to_bmp, apply_snapshot, flush_peer_snapshot) and "
+                  "daemon/src/mrt.rs (adj_rib_in_to_mrt, dump_table)",
+                  "harness/daemon/c19.rs (+ c19_bmp.rs, c19_mrt.rs inside the modules): the PerPeerHeader::new calls of the "
+                  "BmpClient::serve event loop are transcribed; flush_peer_snapshot's messages are sorted by (family, NLRI, path "
+                  "id) after checking that every route precedes every End-of-RIB; dump_table runs on a TableManager(2 shards) "
+                  "filled by insert_route, its wall-clock timestamps are zeroed by a 30-line TABLE_DUMP_V2 walker",
+                  "harness/common/c19_core.rs: the embedded BGP bytes of a case are produced by a stand-alone PeerCodec::new() "
                   "configured like the one inside BmpCodec/MrtCodec (set_family(addpath_tx)); the decoder table of a case is "
                   "PeerCodec::parse_message + validate_message on every frame with the record's add-path setting; `run` "
                   "re-derives both and answers (bad-case) if the case line disagrees",
@@ -73,7 +97,8 @@ CONFIG = dict(
                            "bodies of StatsReports / Termination / RouteMirroring (the encoder writes none; the daemon never sends them)",
                            "Attribute::encode for numeric attributes whose stored flags carry the extended-length bit (put_fixed_len): "
                            "modelled, but not reachable through the public constructors used by the harness",
-                           "daemon-side converters: transcribed into Spec.inDomain, not executed"],
+                           "hash order of flush_peer_snapshot and table order of collect_loc_rib_paths (see level_note)",
+                           "the async plumbing of BmpClient::serve / MrtDumper (TCP, files, subscription): not run"],
     assumptions=["a monitored UPDATE has at least one NLRI and (unicast/multicast) a next hop; its attributes are in the "
                  "image of Attribute::decode", "peer and local address of a session are of one family (one TCP socket)",
                  "the caller never sets the V bit in PerPeerHeader.flags (daemon: 0, L, O, L|O)",
